@@ -101,19 +101,22 @@ def gen_stress(seed, tier):
 PROM_ENGINES = ["prom_int", "prom_void", "prom_uptr", "prom_ref", "prom_cnt"]
 
 
-def gen_prom(seed, tier):
+def gen_prom(seed, tier, waiters=False):
     """op sequences over 4 promise slots, 2 bind closures and 3 futures (harness/seq_prom.cpp).  A shadow of which slot
     holds an object / is believed to own a future only steers the choice of ops (mostly valid, aimed at: assignment onto a
     live / empty promise from a live / empty / moved-from source, self assignment, calls through moved-from promises,
     explicit drop, bind closures called twice or dropped, waiters parked on a future whose promise is overwritten)."""
     rng = random.Random(seed * 104729 + 404)
-    n = 600 if tier == "quick" else 8000
+    n = (300 if waiters else 600) if tier == "quick" else (3000 if waiters else 8000)
     cases = []
     for i in range(n):
         eng = PROM_ENGINES[i % len(PROM_ENGINES)]
         obj = [False] * 4; own = [None] * 4; clo = [None] * 2; clo_obj = [False] * 2
         taken = [False] * 3; wid = 0
         ops = []
+        if waiters:   # C02 focus: two live promises whose futures already have parked waiters of both kinds
+            ops = [[1, 0, 0], [1, 1, 1], [14, 0, 0, rng.randint(0, 1)], [14, 1, 0, rng.randint(0, 1)], [14, 2, 1, rng.randint(0, 1)]]
+            obj[0] = obj[1] = True; own[0] = 0; own[1] = 1; taken[0] = taken[1] = True; wid = 3
         L = rng.choice([4, 6, 8, 10, 14, 20])
         for _ in range(L):
             r = rng.random()
